@@ -247,7 +247,7 @@ Qed.
 (* ------------------------------------------------------------------ the state invariant *)
 Record DInv (s : dstate) (tr : list dev) : Prop := mkDI {
   di_q : QInv (d_queue s) (d_nsend s) tr;
-  di_idle : d_conn s = true -> d_parked s = 0%nat -> d_queue s = [];
+  di_idle : d_conn s = true -> d_parked s = 0%nat -> d_owed s = false -> d_queue s = [];
   di_cap : (length (d_queue s) <= capacity)%nat }.
 
 Lemma dinv_init c : DInv (dinit c) [].
@@ -275,13 +275,13 @@ Proof. induction l as [|x l IH]; cbn; [lia|]. destruct (f x); cbn; lia. Qed.
 
 Lemma dstep_inv s tr o s' evs : DInv s tr -> dstep s o = Some (s', evs) -> DInv s' (tr ++ evs).
 Proof.
-  intros [Q Idle Cap] H. destruct o as [r life|dt|[|]| |]; cbn [dstep] in H.
+  intros [Q Idle Cap] H. destruct o as [r life|dt|[|]| | | |]; cbn [dstep] in H.
   - (* send *)
     pose proof (qinv_purge (d_now s) _ _ _ Q) as Q1.
     destruct (capacity <=? length (filter (unexpired (d_now s)) (d_queue s)))%nat eqn:Full.
     + injection H as <- <-. rewrite app_assoc. constructor; cbn.
       * now apply qinv_refused.
-      * intros C P. rewrite (Idle C P). reflexivity.
+      * intros C P O. rewrite (Idle C P O). reflexivity.
       * pose proof (filter_len (unexpired (d_now s)) (d_queue s)). lia.
     + apply Nat.leb_gt in Full.
       pose proof (qinv_accept _ _ _ 0%nat EncOk 0 r (d_now s + life) Q1) as Q2.
@@ -297,7 +297,7 @@ Proof.
           by (rewrite <- !app_assoc; reflexivity).
         constructor; cbn.
         -- exact Q3.
-        -- intros _ P. apply I. destruct p; [lia|reflexivity].
+        -- intros _ P _. apply I. destruct p; [lia|reflexivity].
         -- rewrite app_length in L. cbn in L. lia.
       * injection H as <- <-. rewrite app_assoc. constructor; cbn.
         -- exact Q2.
@@ -319,9 +319,20 @@ Proof.
     pose proof (dloop_rest_len (d_bp s) (d_now s) (d_queue s)) as L.
     pose proof (dloop_idle (d_bp s) (d_now s) (d_queue s)) as I.
     destruct (dloop (d_bp s) (d_now s) (d_queue s)) as [[ev2 rest] p]. injection H as <- <-.
-    constructor; cbn; [exact Q3| |lia]. intros _ P. apply I. destruct p; [discriminate|reflexivity].
+    constructor; cbn; [exact Q3| |lia]. intros _ P _. apply I. destruct p; [discriminate|reflexivity].
+  - (* connected, notification running *)
+    destruct (d_conn s) eqn:C; [discriminate|]. injection H as <- <-. rewrite app_nil_r.
+    constructor; cbn; [exact Q|discriminate|exact Cap].
+  - (* the flush of _connect *)
+    destruct (d_owed s) eqn:O; [|discriminate].
+    pose proof (qinv_loop (d_bp s) (d_now s) _ _ _ Q) as Q3.
+    pose proof (dloop_rest_len (d_bp s) (d_now s) (d_queue s)) as L.
+    pose proof (dloop_idle (d_bp s) (d_now s) (d_queue s)) as I.
+    destruct (dloop (d_bp s) (d_now s) (d_queue s)) as [[ev2 rest] p]. injection H as <- <-.
+    constructor; cbn; [exact Q3| |lia]. intros _ P _. apply I. destruct p; [lia|reflexivity].
   - (* link down *)
-    destruct (d_parked s); [|discriminate]. injection H as <- <-. rewrite app_nil_r. constructor; cbn; try assumption. discriminate.
+    destruct (d_owed s); [discriminate|]. destruct (d_parked s); [|discriminate]. injection H as <- <-. rewrite app_nil_r.
+    constructor; cbn; try assumption. discriminate.
 Qed.
 
 Lemma drun_inv ops : forall s tr s' evs, DInv s tr -> drun s ops = Some (s', evs) -> DInv s' (tr ++ evs).
@@ -350,53 +361,14 @@ Theorem drain_expiry c ops s tr i t :
 Proof. intros H. pose proof (drun_inv ops _ [] _ _ (dinv_init c) H) as [Q _ _]. exact (q_wrote _ _ _ Q i t). Qed.
 
 Theorem drain_complete c ops s tr :
-  drun (dinit c) ops = Some (s, tr) -> d_conn s = true -> d_parked s = 0%nat ->
+  drun (dinit c) ops = Some (s, tr) -> d_conn s = true -> d_parked s = 0%nat -> d_owed s = false ->
   forall i x, In (DAccept i x) tr -> (exists t, In (DWrote i t) tr) \/ (exists t, In (DDrop i t) tr /\ x <= t).
 Proof.
-  intros H C P i x Hi. pose proof (drun_inv ops _ [] _ _ (dinv_init c) H) as [Q Idle _]. cbn in Q.
+  intros H C P O i x Hi. pose proof (drun_inv ops _ [] _ _ (dinv_init c) H) as [Q Idle _]. cbn in Q.
   destruct (q_done _ _ _ Q i x Hi) as [W|[D|[e [He _]]]]; [now left|now right|].
-  rewrite (Idle C P) in He. contradiction.
+  rewrite (Idle C P O) in He. contradiction.
 Qed.
 
 Theorem drain_bound c ops s tr : drun (dinit c) ops = Some (s, tr) -> (length (d_queue s) <= 10)%nat.
 Proof. intros H. pose proof (drun_inv ops _ [] _ _ (dinv_init c) H) as [_ _ Cap]. exact Cap. Qed.
 
-(* a drop is always of an expired entry that had been accepted *)
-Lemma drop_expired_step s o s' evs i t : dstep s o = Some (s', evs) -> In (DDrop i t) evs ->
-  exists e, In e (d_queue s ++ match o with DSend r life => [mkEntry (d_nsend s) 0 EncOk 0 r (d_now s + life)] | _ => [] end) /\
-            e_idx e = i /\ e_expiry e <= t.
-Proof.
-  intros H Hin.
-  assert (Loop : forall bp q ev2 rest p, dloop bp (d_now s) q = (ev2, rest, p) -> In (DDrop i t) ev2 ->
-                   exists e, In e q /\ e_idx e = i /\ e_expiry e <= t).
-  { intros bp q ev2 rest p E Hd. destruct (dloop_spec bp (d_now s) q) as [pre Hs]. rewrite E in Hs.
-    destruct Hs as [-> [-> _]]. apply in_drop_evof in Hd as [e [He [<- [-> U]]]]. exists e. repeat split.
-    - apply in_or_app. now left.
-    - unfold unexpired in U. now apply Z.ltb_ge in U. }
-  assert (Purge : In (DDrop i t) (purge_evs (d_now s) (d_queue s)) ->
-                  exists e, In e (d_queue s) /\ e_idx e = i /\ e_expiry e <= t).
-  { intros Hd. apply in_drop_purge in Hd as [e [He [<- [-> U]]]]. exists e. repeat split; [exact He|].
-    unfold unexpired in U. now apply Z.ltb_ge in U. }
-  destruct o as [r life|dt|[|]| |]; cbn [dstep] in H.
-  - destruct (capacity <=? _)%nat.
-    + injection H as _ <-. apply in_app_or in Hin. destruct Hin as [Hin|[Hin|[]]]; [|discriminate].
-      destruct (Purge Hin) as [e [He R]]. exists e. split; [apply in_or_app; now left|exact R].
-    + destruct (d_conn s).
-      * destruct (dloop (d_bp s) (d_now s) _) as [[ev2 rest] p] eqn:E. injection H as _ <-.
-        apply in_app_or in Hin. destruct Hin as [Hin|[Hin|Hin]]; [|discriminate|].
-        -- destruct (Purge Hin) as [e [He R]]. exists e. split; [apply in_or_app; now left|exact R].
-        -- destruct (Loop _ _ _ _ _ E Hin) as [e [He R]]. exists e. split; [|exact R].
-           apply in_app_or in He. destruct He as [He|He]; apply in_or_app; [left|now right].
-           now apply filter_In in He as [He _].
-      * injection H as _ <-. apply in_app_or in Hin. destruct Hin as [Hin|[Hin|[]]]; [|discriminate].
-        destruct (Purge Hin) as [e [He R]]. exists e. split; [apply in_or_app; now left|exact R].
-  - destruct (dt <? 0); [discriminate|]. injection H as _ <-. contradiction.
-  - injection H as _ <-. contradiction.
-  - destruct (d_parked s).
-    + injection H as _ <-. contradiction.
-    + destruct (dloop false (d_now s) (d_queue s)) as [[ev2 rest] p] eqn:E. injection H as _ <-.
-      destruct (Loop _ _ _ _ _ E Hin) as [e [He R]]. exists e. split; [rewrite app_nil_r; exact He|exact R].
-  - destruct (d_conn s); [discriminate|]. destruct (dloop (d_bp s) (d_now s) (d_queue s)) as [[ev2 rest] p] eqn:E.
-    injection H as _ <-. destruct (Loop _ _ _ _ _ E Hin) as [e [He R]]. exists e. split; [rewrite app_nil_r; exact He|exact R].
-  - destruct (d_parked s); [|discriminate]. injection H as _ <-. contradiction.
-Qed.
